@@ -77,10 +77,18 @@ def advance_before_read(ctx, db):
         for tr in trs:
             if not live(tr):
                 continue
-            env = {}
+            env = {}; env_c = {}
             for i, it in enumerate(tr):
                 if it.k == 'decl' and it.get('init') is not None and re.fullmatch(r'local:\w+(#\d+)?', it.get('var') or '') and not it.get('ref'):
                     env[it['var']] = _lin(it['init'], env)
+                if it.k in ('write', 'decl') and re.fullmatch(r'local:\w+(#\d+)?', (it.get('path') if it.k == 'write' else it.get('var')) or '') and (it.get('op') or '=') == '=':
+                    # std::size_t new_pos; ... new_pos = max(old + 1, ...); ... l._pos = new_pos;  - the local stands for what was stored in it on this path
+                    v_ = it.get('path') if it.k == 'write' else it.get('var')
+                    r0_ = (it.get('rhs') if it.k == 'write' else it.get('init')) or ''
+                    mx0_ = next((c for c in reversed(tr[:i]) if c.k == 'call' and norm(c.get('callee') or '') == 'std::max'), None)
+                    env_c[v_] = [a.get('path') or '' for a in mx0_.get('args', [])] if ('std::max' in r0_ and mx0_ is not None) else [r0_]
+                    if it.k == 'write':
+                        env[v_] = _lin(r0_, env)
                 if it.k == 'write' and field_of(it) == REGPOS:
                     nw += 1
                     op_ = it.get('op') or '='
@@ -99,6 +107,8 @@ def advance_before_read(ctx, db):
                         mx = next((c for c in reversed(tr[:upto]) if c.k == 'call' and norm(c.get('callee') or '') == 'std::max'), None)
                         if 'std::max' in rhs and mx is not None:
                             cands = [a.get('path') or '' for a in mx.get('args', [])]
+                        elif rhs in env_c:
+                            cands = env_c[rhs]
                         for c_ in cands:
                             l_ = _lin(c_, env)
                             if l_ is not None and l_.get('REG') == 1 and l_.get('', 0) >= 1 and set(l_) <= {'REG', ''}:
@@ -270,6 +280,11 @@ def close_wakes_all(ctx, db):
         ctx.paths(rid, len(trs))
         bad = None
         bodies = helper_bodies(db, f)
+        # closure bodies of push_lk and of its helpers (the body of a std::for_each) belong to the walk as well
+        for g_ in list(bodies):
+            for lf_ in lambdas_of(db, g_['nname']):
+                if lf_['key'] not in {b_['key'] for b_ in bodies}:
+                    bodies.append(lf_)
         evl = [e for g in bodies for e in g.events()]
         if any(b.get('term') in ('BreakStmt',) for g in bodies for b in g['blocks']) or any(b.get('term') == 'ReturnStmt' for b in f['blocks']):
             bad = ('the walk over the registrations can exit early', [])
@@ -281,7 +296,9 @@ def close_wakes_all(ctx, db):
                 bad = bad or ('a parked awaiter of a used registration is not collected and cleared', tr)
             used_false_collect = False
         loops = [b for g in bodies for b in g['blocks'] if (b.get('cond') or {}).get('term') in ('CXXForRangeStmt', 'ForStmt', 'WhileStmt')]
-        if len(loops) < 2:
+        # std::for_each over a whole container is a loop without early exit
+        algo = [e for e in evl if e.k == 'call' and norm(e.get('callee') or '') in ('std::for_each', 'std::ranges::for_each')]
+        if len(loops) + len(algo) < 2:
             bad = bad or ('push_lk lost its collect / resume loops', [])
         rs = [e for e in evl if e.k == 'call' and norm(e.get('callee')) == 'cocls::awaiter::resume']
         if len(rs) != 1:
